@@ -78,6 +78,11 @@ def main():
             merged['inconclusive'].append(
                 'offline checker raised: ' + traceback.format_exc()[-800:])
         s = octx.summary()
+        try:
+            with open(os.path.join(outdir, 'shard_offline.json'), 'w') as fp:
+                json.dump(dict(s, status='ok'), fp)
+        except Exception:
+            pass
         merged['evaluations'] += s['evaluations']
         merged['nt'].update(s['nt'])
         for k, v in s['counters'].items():
